@@ -297,7 +297,7 @@ tag_t
 y_resolution(uint32_t num, uint32_t den)
 {
     if (den == 0) {
-        return tag_t::as_rational(282, 0, 1);
+        return tag_t::as_rational(283, 0, 1);
     }
     return tag_t::as_rational(283, num, den);
 }
